@@ -28,15 +28,16 @@ def generate(seed, mode):
     S = Streams(seed)
     w = S('world')
     o = S('ops')
-    nI = w.randint(3, 6)
+    big = h64(seed, 'big-world') % 12 == 0        # swarm knob: now and then wider and deeper hierarchies
+    nI = w.randint(3, 6) if not big else w.randint(7, 10)
     ibases = []
     for i in range(nI):
-        k = w.randint(0, min(i, 2))
+        k = w.randint(0, min(i, 2 if not big else 4))
         ibases.append(sorted(w.sample(range(i), k)) if i else [])
-    ncls = w.randint(1, 3)
+    ncls = w.randint(1, 3) if not big else w.randint(4, 6)
     classes = []
     for c in range(ncls):
-        k = w.randint(0, min(c, 2))
+        k = w.randint(0, min(c, 2 if not big else 3))
         classes.append(w.sample(range(c), k) if c else [])
     nf = w.randint(0, 2)
     cflags = [{'meta': w.random() < 0.25, 'slots': w.random() < 0.2} for _ in range(ncls)]
